@@ -61,6 +61,88 @@ extern "C" {
     void embedded_pairing_core_arch_x86_64_bigint_768_square(void* res, const void* a);
     void embedded_pairing_core_arch_x86_64_bmi2_adx_bigint_768_square(void* res, const void* a);
 }
+/* Entry-state poisoning for the hand-written x86-64 routines. The System V ABI leaves the arithmetic flags and the caller-saved
+   registers undefined at a call: a routine that consumes CF/OF (an adcx/adox chain started without clearing them) or a scratch register it
+   never wrote works only as long as its callers happen to leave them clear. jv_x86_tramp calls fn(a0,a1,a2,a3) with CF and OF as chosen
+   by flagsel (bit 0 = CF, bit 1 = OF; SF, ZF, PF always set), junk in rax, r8-r10, sentinels in the callee-saved registers, and reports
+   (jv_x86_tramp_fault) a callee-saved register or the direction flag that does not come back as it went in. */
+extern "C" uint64_t jv_x86_tramp(void* fn, const void* a0, const void* a1, const void* a2, uint64_t a3, uint64_t flagsel);
+extern "C" { volatile uint64_t jv_x86_tramp_fault = 0; }
+asm(R"(
+    .text
+    .globl jv_x86_tramp
+    .type jv_x86_tramp, @function
+jv_x86_tramp:
+    push %rbx
+    push %rbp
+    push %r12
+    push %r13
+    push %r14
+    push %r15
+    sub $8, %rsp
+    mov %rdi, %r11
+    mov %r9, %r10
+    mov %rsi, %rdi
+    mov %rdx, %rsi
+    mov %rcx, %rdx
+    mov %r8, %rcx
+    movabs $0x5151515151515151, %rbx
+    mov %rbx, %rbp
+    mov %rbx, %r12
+    mov %rbx, %r13
+    mov %rbx, %r14
+    mov %rbx, %r15
+    mov %r10, %rax
+    and $1, %eax
+    or $0xC4, %eax
+    shl $8, %eax
+    test $2, %r10
+    jz 1f
+    mov $0x7fffffff, %r10d
+    add $1, %r10d
+    jmp 2f
+1:  xor %r10d, %r10d
+2:  sahf
+    movabs $0xA5A5A5A5A5A5A5A5, %r8
+    mov %r8, %r9
+    mov %r8, %r10
+    mov %r8, %rax
+    call *%r11
+    mov %rax, %r10
+    movabs $0x5151515151515151, %r11
+    xor %eax, %eax
+    cmp %r11, %rbx
+    jne 3f
+    cmp %r11, %rbp
+    jne 3f
+    cmp %r11, %r12
+    jne 3f
+    cmp %r11, %r13
+    jne 3f
+    cmp %r11, %r14
+    jne 3f
+    cmp %r11, %r15
+    jne 3f
+    pushfq
+    pop %r11
+    test $0x400, %r11
+    jz 4f
+    cld
+    mov $2, %eax
+    jmp 5f
+3:  mov $1, %eax
+5:  mov %rax, jv_x86_tramp_fault(%rip)
+4:  mov %r10, %rax
+    add $8, %rsp
+    pop %r15
+    pop %r14
+    pop %r13
+    pop %r12
+    pop %rbp
+    pop %rbx
+    ret
+    .size jv_x86_tramp, .-jv_x86_tramp
+)");
 #else
 #define JV_X86_ASM 0
 #endif
@@ -188,7 +270,36 @@ void jv_const_get(int ek, int which, void* out) {
  * 32 bytes (256), 64 bytes (512). The return value carries the carry/borrow/
  * shifted-out bit where the routine has one. out may alias a.
  */
+static int g_entry_mode = 0;   /* 0: through the C++ methods; 1..4: the assembly routine itself through jv_x86_tramp with flagsel = mode-1 */
+int jv_set_entry_mode(int mode) { g_entry_mode = JV_X86_ASM ? mode : 0; return JV_X86_ASM; }
 int jv_prim(int op, void* out, const void* a, const void* b) {
+#if JV_X86_ASM
+    if (g_entry_mode) {
+        const BigInt<384>& qq = Fq::p_value; uint64_t fs = (uint64_t) (g_entry_mode - 1), inv = Fq::inv_value.words[0], rv; void* fn = nullptr; int kind = 0;   /* kind 1: returns a carry flag */
+        switch (op) {
+        case JV_PR_BI384_ADD: fn = (void*) embedded_pairing_core_arch_x86_64_bigint_384_add; rv = jv_x86_tramp(fn, out, a, b, 0, fs); kind = 1; break;
+        case JV_PR_BI384_SUB: fn = (void*) embedded_pairing_core_arch_x86_64_bigint_384_subtract; rv = jv_x86_tramp(fn, out, a, b, 0, fs); kind = 1; break;
+        case JV_PR_BI384_SHL1: fn = (void*) embedded_pairing_core_arch_x86_64_bigint_384_multiply2; rv = jv_x86_tramp(fn, out, a, nullptr, 0, fs); kind = 2; break;
+#ifdef __BMI2__
+        case JV_PR_BI768_MUL: fn = (void*) embedded_pairing_core_arch_x86_64_bmi2_adx_bigint_768_multiply; rv = jv_x86_tramp(fn, out, a, b, 0, fs); break;
+        case JV_PR_BI768_SQR: fn = (void*) embedded_pairing_core_arch_x86_64_bmi2_adx_bigint_768_square; rv = jv_x86_tramp(fn, out, a, nullptr, 0, fs); break;
+        case JV_PR_FP384_REDC: { BigInt<768> tmp; memcpy(&tmp, a, 96); fn = (void*) embedded_pairing_core_arch_x86_64_bmi2_adx_fpbase_384_montgomery_reduce; rv = jv_x86_tramp(fn, out, &tmp, &qq, inv, fs); break; }
+#else
+        case JV_PR_BI768_MUL: fn = (void*) ep::core::runtime_bigint_768_multiply; rv = jv_x86_tramp(fn, out, a, b, 0, fs); break;
+        case JV_PR_BI768_SQR: fn = (void*) ep::core::runtime_bigint_768_square; rv = jv_x86_tramp(fn, out, a, nullptr, 0, fs); break;
+        case JV_PR_FP384_REDC: { BigInt<768> tmp; memcpy(&tmp, a, 96); fn = (void*) ep::core::runtime_fpbase_384_montgomery_reduce; rv = jv_x86_tramp(fn, out, &tmp, &qq, inv, fs); break; }
+#endif
+        case JV_PR_FP384_ADD: fn = (void*) embedded_pairing_core_arch_x86_64_fpbase_384_add; rv = jv_x86_tramp(fn, out, a, b, (uint64_t) (uintptr_t) &qq, fs); break;
+        case JV_PR_FP384_SUB: fn = (void*) embedded_pairing_core_arch_x86_64_fpbase_384_subtract; rv = jv_x86_tramp(fn, out, a, b, (uint64_t) (uintptr_t) &qq, fs); break;
+        case JV_PR_FP384_DBL: fn = (void*) embedded_pairing_core_arch_x86_64_fpbase_384_multiply2; rv = jv_x86_tramp(fn, out, a, &qq, 0, fs); break;
+        default: break;
+        }
+        if (fn) {
+            if (jv_x86_tramp_fault) { jv_x86_tramp_fault = 0; return -78; }
+            return kind == 1 ? ((rv & 0xFF) ? 1 : 0) : kind == 2 ? (rv != 0 ? 1 : 0) : 0;
+        }
+    }
+#endif
     typedef BigInt<384> B384; typedef BigInt<768> B768; typedef BigInt<256> B256; typedef BigInt<512> B512;
     typedef FpBase<384> F384; typedef FpBase<256> F256;
     const B384& q = Fq::p_value; const B256& r = Fr::p_value;
